@@ -242,3 +242,61 @@ pub fn check_reject(vec: &J) -> J {
         Ok(_) => json!({"id": id, "ok": false, "why": "an ill-formed program was accepted", "text": text, "vec": vec}),
     }
 }
+
+
+/// C04: run a program over `$n` (a) at n = 3, comparing with the specified stream, (b) at n = N and 2N in a thread
+/// with a small fixed stack, counting outputs and measuring the peak of live heap bytes above the level at the start.
+/// A stack overflow kills this worker process: the farm reports the crash for this vector.
+pub fn measure_tail(vec: &J) -> J {
+    let id = vec["id"].clone();
+    let text = match enc::to_text(&vec["prog"]) {
+        Ok(t) => t,
+        Err(e) => return json!({"id": id, "ok": false, "why": format!("unprintable: {e}")}),
+    };
+    let fail = |why: String| json!({"id": id, "ok": false, "why": why, "text": text, "vec": vec});
+    // (a) small n against the specification
+    let small = json!({"id": id, "prog": vec["prog"], "vars": [["n", {"t": "int", "n": 3}]], "input": {"t": "null"}, "expect": vec["expect"]});
+    let r = check_vector(&small);
+    if r["ok"] != true {
+        return fail(format!("at $n = 3: {}", r["why"].as_str().unwrap_or("?")));
+    }
+    let stack = vec["stack"].as_u64().unwrap_or(2 << 20) as usize;
+    let n1 = vec["n"].as_u64().unwrap_or(100000) as isize;
+    let mut ms = Vec::new();
+    for n in [n1, 2 * n1] {
+        let text2 = text.clone();
+        let h = std::thread::Builder::new().stack_size(stack).spawn(move || -> Result<(usize, usize, String), String> {
+            let filter = compile(&text2, &["n".to_string()])?;
+            let base = crate::alloc_count::reset();
+            let mut count = 0usize;
+            let mut last = String::new();
+            {
+                let boxed: Box<dyn Iterator<Item = Result<Val, String>>> = Box::new(core::iter::empty());
+                let rc = RcIter::new(boxed);
+                let runner = Runner::default();
+                let data = Data { runner: &runner, lut: &filter.lut, inputs: &rc };
+                let ctx = Ctx::new(&data, Vars::new(vec![Val::from(n)]));
+                for r in filter.id.run((ctx, Val::Null)) {
+                    match classify(r) {
+                        Item::Out(v) => {
+                            count += 1;
+                            last = v.to_string();
+                        }
+                        other => return Err(format!("{}", other.to_json())),
+                    }
+                }
+            }
+            Ok((count, crate::alloc_count::peak().saturating_sub(base), last))
+        });
+        let h = match h {
+            Ok(h) => h,
+            Err(e) => return fail(format!("cannot spawn: {e}")),
+        };
+        match h.join() {
+            Ok(Ok((count, peak, last))) => ms.push(json!({"n": n, "outputs": count, "peak": peak, "last": last})),
+            Ok(Err(e)) => return fail(format!("at $n = {n}: {e}")),
+            Err(_) => return fail(format!("at $n = {n}: panic")),
+        }
+    }
+    json!({"id": id, "ok": true, "text": text, "m": ms})
+}
